@@ -256,7 +256,13 @@ pub fn sender_encode(
 pub fn fragment(msg: &[u8], seq: u64, cuts: &[usize]) -> Vec<Vec<u8>> {
     assert!(msg.len() >= 2 && msg[0] == 131 && msg[1] == 68);
     let rest = &msg[2..];
-    let mut pts: Vec<usize> = cuts.iter().map(|c| (*c).min(rest.len())).collect();
+    // the distribution header (count, flags, atom cache references) belongs to the first fragment
+    let mut scratch = PeerCache::default();
+    for s in scratch.slots.iter_mut() {
+        *s = Some(String::new());
+    }
+    let hdr_len = hdr_read(rest, &mut scratch).map(|x| x.1).unwrap_or(1);
+    let mut pts: Vec<usize> = cuts.iter().map(|c| (*c).clamp(hdr_len, rest.len().max(hdr_len))).collect();
     pts.sort();
     let n = pts.len() as u64 + 1;
     let mut frames = vec![];
